@@ -357,6 +357,9 @@ func buildOK(expr string) bool {
 	if strings.HasPrefix(expr, "!") {
 		return !buildOK(expr[1:])
 	}
+	if expr == "verif" {
+		return false // the library is translated as built without the verification hooks
+	}
 	return strings.HasPrefix(expr, "go1.")
 }
 
@@ -1525,8 +1528,8 @@ func main() {
 				fmt.Fprintln(os.Stderr, "locktrans:", err)
 				os.Exit(2)
 			}
-			if verifTag.Match(src) {
-				continue // verification hooks are not part of the library
+			if verifTag.Match(src) && !regexp.MustCompile(`(?m)^//\s*(?:go:build|\+build) !verif\s*$`).Match(src) {
+				continue // verification hooks are not part of the library (their !verif stubs are)
 			}
 			if m := regexp.MustCompile(`(?m)^//\s*(?:go:build|\+build) (.*)$`).FindSubmatch(src); m != nil && !buildOK(string(m[1])) {
 				continue
